@@ -41,10 +41,11 @@ impl PatchTrait for PatchArm {
             ]
         } else {
             [
-                // ldr r9, [pc, #-0] ; Load pc + 8 into r9, so the target word
-                0xE51F9000,
-                // bx r9 ; Branch to the target function
-                0xE12FFF19,
+                // ldr r12, [pc, #-0] ; Load pc + 8 into r12 (ip, the intra-procedure-call
+                // scratch register: r9 is callee-saved and must not be clobbered)
+                0xE51FC000,
+                // bx r12 ; Branch to the target function
+                0xE12FFF1C,
                 // .word target
                 target.as_ptr() as u32,
             ]
